@@ -203,7 +203,7 @@ impl WorkerPool {
         let timeout = Duration::from_millis(config.timeout_ms);
 
         loop {
-            if shutdown_flag.load(Ordering::Relaxed) {
+            if shutdown_flag.load(Ordering::Relaxed) && rx.is_empty() {
                 tracing::debug!("TCP worker {worker_id} received shutdown signal");
                 break;
             }
